@@ -34,6 +34,9 @@ func (m *Mast) load(ctx context.Context, link interface{}) (*mastNode, error) {
 }
 
 func (m *Mast) loadPersisted(ctx context.Context, l string) (*mastNode, error) {
+	if m.persist == nil {
+		return nil, fmt.Errorf("cannot load %s: no persistence mechanism set; set RemoteConfig.StoreImmutablePartsWith", l)
+	}
 	cacheKey := fmt.Sprintf("%s/%s", m.persist.NodeURLPrefix(), l)
 	if m.nodeCache != nil {
 		if node, ok := m.nodeCache.Get(cacheKey); ok {
@@ -130,6 +133,9 @@ func unmarshalStringNode(m *Mast, nodeBytes []byte, l string, node *mastNode) er
 			make([]interface{}, len(stringNode.Key)+1),
 		},
 		false, true, nil, &l,
+	}
+	if m.zeroKey == nil && len(stringNode.Key) > 0 {
+		return fmt.Errorf("cannot unmarshal %s: do not know which type its keys have; set RemoteConfig.KeysLike", l)
 	}
 	for i := 0; i < len(stringNode.Key); i++ {
 		aType := reflect.TypeOf(m.zeroKey)
